@@ -927,7 +927,7 @@ fn zone_arg() -> BoxedStrategy<ZoneArg> {
     .boxed()
 }
 
-fn args() -> BoxedStrategy<Args> {
+pub fn args() -> BoxedStrategy<Args> {
     let nums = (any_i32(), any_u8(), any_u8(), any_u8(), any_u8(), any_u8(), any_u16(), any_u16(), any_u16(), any_i32());
     let recv = (gen::day(), gen::day(), gen::ns_of_day(), gen::ns_of_day(), gen::instant_ns(), gen::instant_ns(), raw_i128(), prop_oneof![any::<i64>(), (-8_640_000_000_000_003i64..=8_640_000_000_000_003)]);
     let durs = (prop::array::uniform10(raw_f64()), gen::valid_dur(600_000, true), gen::valid_dur(40, true));
@@ -950,7 +950,7 @@ pub fn case() -> BoxedStrategy<Case> {
 
 /// observational calendars take seconds per conversion far from the present (a liveness concern that is
 /// reported through the watchdog): keep the structured universe inside the range where they terminate quickly
-fn tame(mut c: Case) -> Case {
+pub fn tame(mut c: Case) -> Case {
     let slow = |i: u8| matches!(CALS[i as usize % CALS.len()], "islamic" | "islamic-umalqura" | "chinese" | "dangi");
     if slow(c.a.cal) || slow(c.a.cal2) {
         let lo = to_days(-8000, 1, 1);
